@@ -1545,6 +1545,15 @@ func hasMonitors(db *database) bool {
 	return len(db.monitors) > 0
 }
 
+// lockedAPI returns the API of the database. The API is replaced together with
+// the cache, under cacheMutex, when the client connects, so it is read under
+// that lock
+func (db *database) lockedAPI() API {
+	db.cacheMutex.RLock()
+	defer db.cacheMutex.RUnlock()
+	return db.api
+}
+
 // Client API interface wrapper functions
 // We add this wrapper to allow users to access the API directly on the
 // client object
@@ -1559,7 +1568,7 @@ func (o *ovsdbClient) Get(ctx context.Context, model model.Model) error {
 
 // Create implements the API interface's Create function
 func (o *ovsdbClient) Create(models ...model.Model) ([]ovsdb.Operation, error) {
-	return o.primaryDB().api.Create(models...)
+	return o.primaryDB().lockedAPI().Create(models...)
 }
 
 // List implements the API interface's List function
@@ -1572,20 +1581,20 @@ func (o *ovsdbClient) List(ctx context.Context, result interface{}) error {
 
 // Where implements the API interface's Where function
 func (o *ovsdbClient) Where(models ...model.Model) ConditionalAPI {
-	return o.primaryDB().api.Where(models...)
+	return o.primaryDB().lockedAPI().Where(models...)
 }
 
 // WhereAny implements the API interface's WhereAny function
 func (o *ovsdbClient) WhereAny(m model.Model, conditions ...model.Condition) ConditionalAPI {
-	return o.primaryDB().api.WhereAny(m, conditions...)
+	return o.primaryDB().lockedAPI().WhereAny(m, conditions...)
 }
 
 // WhereAll implements the API interface's WhereAll function
 func (o *ovsdbClient) WhereAll(m model.Model, conditions ...model.Condition) ConditionalAPI {
-	return o.primaryDB().api.WhereAll(m, conditions...)
+	return o.primaryDB().lockedAPI().WhereAll(m, conditions...)
 }
 
 // WhereCache implements the API interface's WhereCache function
 func (o *ovsdbClient) WhereCache(predicate interface{}) ConditionalAPI {
-	return o.primaryDB().api.WhereCache(predicate)
+	return o.primaryDB().lockedAPI().WhereCache(predicate)
 }
